@@ -90,7 +90,14 @@ func runC01(c *Collector, r *Rng, thorough bool) {
 			f()
 		}
 	}()
-	for _, k := range keys {
+	nOwn := len(keys)
+	keys = append(append([]realKey{}, keys...), opaqueKeySet(r)...)
+	nFull := n
+	for ki, k := range keys {
+		n = nFull
+		if ki >= nOwn { // keys behind an opaque crypto.Signer: fewer rounds each
+			n = nFull/3 + 1
+		}
 		signer, verifier := k.signer(), k.verifier()
 		// signer / verifier built from a COSE_Key (EC2 and OKP only)
 		if _, isRSA := k.priv.(*rsa.PrivateKey); !isRSA && r.Bool() {
@@ -450,6 +457,27 @@ func runC03(c *Collector, r *Rng, thorough bool) {
 				return t
 			}
 			check("unchanged", data, ext, k, verifier)
+			// no alg in the protected bucket (legal with external data): what the unprotected bucket says about alg,
+			// or about anything else, does not enter the verdict
+			if i < 3 {
+				for _, pcontent := range [][]byte{nil, wMap(-1, wInt(4, -1), wBstr([]byte("kid"), -1)).Ser()} {
+					for _, vext := range [][]byte{[]byte("aad"), nil} {
+						pl := r.Bytes(1 + r.Intn(20))
+						sigv := refSign(r, k, refArray(refTstr("Signature1"), refBstr(pcontent), refBstr(orEmpty(vext)), refBstr(pl)))
+						for _, ua := range []*W{nil, wInt(int64(k.alg), -1), wInt(int64(other.alg), -1), wTstr("foo", -1), wInt(0, -1), wBstr([]byte{1}, -1)} {
+							um := wMap(-1)
+							if ua != nil {
+								um = wMap(-1, wInt(1, -1), ua)
+							}
+							t := wArr(-1, wBstr(pcontent, -1), um, wBstr(pl, -1), wBstr(sigv, -1))
+							if tagged {
+								t = wTag(18, -1, t)
+							}
+							check("no-protected-alg/unprotected-alg", t.Ser(), vext, k, verifier)
+						}
+					}
+				}
+			}
 			check("other-key", data, ext, other, other.verifier())
 			if len(ext) > 0 {
 				check("other-external", data, append(append([]byte{}, ext...), 1), k, verifier)
@@ -676,7 +704,44 @@ func runC07(c *Collector, r *Rng, thorough bool) {
 		for j := 0; j < ncs; j++ {
 			cp, cu := genHeadersTree(r, GenCfg{MaxEntries: 2, ValDepth: 1, Tags: true, NoAlg: true}, int64(csKey.alg), true)
 			ctbs := refArray(refTstr("CounterSignatureV2"), refBstr(p.Str), refBstr(cp.Str), refBstr(orEmpty(ext)), refBstr(payload.Str), refArray(refBstr(sig)))
-			csItems = append(csItems, wArr(-1, cp, cu, wBstr(refSign(r, csKey, ctbs), -1)))
+			item := wArr(-1, cp, cu, wBstr(refSign(r, csKey, ctbs), -1))
+			// the countersigner is another implementation too: its protected map and every length prefix in any spelling
+			if pm, err := refParseFull(cp.Str); err == nil && len(cp.Str) > 0 && j%2 == 0 {
+				pm.RandWidths(r, 1, 2, nil)
+				pm.ShuffleMaps(r)
+				cp.Str = pm.Ser()
+				ctbs = refArray(refTstr("CounterSignatureV2"), refBstr(p.Str), refBstr(cp.Str), refBstr(orEmpty(ext)), refBstr(payload.Str), refArray(refBstr(sig)))
+				item.Kids[2] = wBstr(refSign(r, csKey, ctbs), -1)
+			}
+			cp.Width = pick(r, widthsFor(uint64(len(cp.Str))))
+			item.Kids[2].Width = pick(r, widthsFor(uint64(len(item.Kids[2].Str))))
+			csItems = append(csItems, item)
+		}
+		// a deeply nested extension parameter and a chain of nested countersignatures (each countersigned in turn; the
+		// inner ones are carried, not verified here): conforming input at any depth the CBOR decoder's default admits
+		if i%4 == 1 {
+			deep := wArr(-1, wInt(1, -1))
+			for dd := pick(r, []int{3, 6, 7, 9, 14, 20}); dd > 0; dd-- {
+				if dd%2 == 0 {
+					deep = wArr(-1, deep)
+				} else {
+					deep = wMap(-1, wInt(int64(dd), -1), deep)
+				}
+			}
+			u.Kids = append(u.Kids, wInt(-700001, -1), deep)
+		}
+		if i%4 == 3 && ncs > 0 {
+			inner := wArr(-1, wBstr(wMap(-1, wInt(1, -1), wInt(-7, -1)).Ser(), -1), wMap(-1), wBstr([]byte{1, 2, 3}, -1))
+			for dd := pick(r, []int{1, 2, 3, 4, 6}); dd > 0; dd-- {
+				val := inner
+				if dd%2 == 0 {
+					val = wArr(-1, inner) // a list of one
+				}
+				inner = wArr(-1, wBstr(wMap(-1, wInt(1, -1), wInt(-7, -1)).Ser(), -1), wMap(-1, wInt(11, -1), val), wBstr([]byte{4, 5, 6}, -1))
+			}
+			last := csItems[len(csItems)-1]
+			last.Kids[1].Kids = append(last.Kids[1].Kids, wInt(11, -1), inner)
+			last.Kids[1].Width = pick(r, widthsFor(uint64(len(last.Kids[1].Kids)/2)))
 		}
 		if ncs == 1 && r.Bool() {
 			u.Kids = append(u.Kids, wInt(int64(2000), -1), wNull())
